@@ -150,9 +150,10 @@ def stage_correspond(mod, cases, obs, tag):
     for old in cdir.glob(f"Cases_{mod.ID}_{tag}_*"):
         old.unlink()
     files = []
-    for k in range(0, len(terms), CHUNK):
-        part = terms[k : k + CHUNK]
-        f = cdir / f"Cases_{mod.ID}_{tag}_{k // CHUNK}.v"
+    chunk = int(getattr(mod, "CHUNK", CHUNK))
+    for k in range(0, len(terms), chunk):
+        part = terms[k : k + chunk]
+        f = cdir / f"Cases_{mod.ID}_{tag}_{k // chunk}.v"
         body = [mod.CASE_IMPORTS, "Require Import List NArith. Import ListNotations.", "Definition results : list (N * bool) := ["]
         body.append(";\n".join(f"  ({i}%N, {t})" for i, t in part))
         body.append("].")
